@@ -5,7 +5,7 @@ import subprocess
 from common import build_harness, log
 
 
-OP_LIMIT = 150      # seconds ONE op may take before the process is stopped (every real op takes milliseconds to a few seconds)
+OP_LIMIT = 90       # seconds ONE op may take before the process is stopped (every real op takes milliseconds to a few seconds)
 HANGS = [0]         # confirmed hangs of this run: the first one is given every benefit of the doubt (a busy machine), the later ones
                     # are judged faster — a tree that hangs on one input usually hangs on many, and the verdict is already there
 
@@ -96,7 +96,7 @@ def run_ops(reqs, timeout=None):
             # the BATCH ran out of time (a loaded machine, a long batch): that says nothing about the op that happened to be
             # running.  It is a hang only if it does not finish on its own either.
             try:
-                q = subprocess.run([hbin], input=json.dumps(reqs[begun]) + "\n", capture_output=True, text=True, timeout=2 * op_limit(),
+                q = subprocess.run([hbin], input=json.dumps(reqs[begun]) + "\n", capture_output=True, text=True, timeout=op_limit(),
                                    env={"GOMEMLIMIT": "8GiB", "GOTRACEBACK": "single"})
                 alone = None
                 for line in q.stdout.split("\n"):
